@@ -16,7 +16,8 @@ try:
         sys.exit("patch does not apply: " + r.stdout)
     any_fail = False
     notes = None
-    for prop in sorted(PROPERTIES):
+    only = [a for a in sys.argv[2:] if a.startswith("C") and len(a) == 3]
+    for prop in sorted(only or PROPERTIES):
         try:
             cx, prog = evaluate(prop, "selftest", PROPERTIES[prop]["rules"], "default", repo=dst)
         except InfraError as e:
